@@ -123,3 +123,35 @@ def src_obligations(res, pid):
     if ch:
         res.cov["changed_source_functions"] = ["%s (%s)" % c for c in ch]
     return True
+
+
+# driver functions the register API's behaviour rests on: what NewRegisterApi calls (C11) and what a register read calls
+# (C09, C10); the refinement theorems of the API (Api/ApiRefine.v) compose with the driver's
+API_DEPENDS = {
+    "C11": ["Ping", "GetDeviceId", "VeCommand", "sendReceive", "sendCommand", "receiveResponse", "recvUntil", "write", "flushReceiver",
+            "computeChecksum", "ResponseForCommand", "resetIoLogBuffers", "ioLoggerLineEnd", "littleEndianBytesToUint"],
+}
+
+
+def api_dependency(res, pid):
+    """A property about the register API also rests on the translated driver functions it calls: when one of them can no
+    longer be translated, or its translation no longer refines the model, the API theorems were re-checked against a stale
+    translation only -- the tie is broken for this property too."""
+    deps = API_DEPENDS.get(pid)
+    if not deps:
+        return True
+    ch = []
+    if BROKEN is not None:
+        ch = sorted(set(failed_functions(BROKEN.detail)) | set(changed()))
+    else:
+        # translated; do the driver's refinement theorems still check against the new text?
+        if not os.path.exists(os.path.join(common.COQ, "Vedirect", "DrvRefine.vo")) or not os.path.exists(os.path.join(common.COQ, "Vedirect", "DrvProps.vo")):
+            ch = changed() or [("?", "?")]
+    mine = [c for c in ch if c[0] in deps or c[0] == "?"]
+    res.cov["driver_functions_this_property_rests_on"] = deps
+    if mine:
+        res.broken.append(Broken("the driver functions this property rests on are no longer tied to the model (tie T-gen): changed or "
+                                 "untranslatable %s" % ", ".join("%s in vedirect/%s" % c for c in mine),
+                                 BROKEN.detail if BROKEN is not None else "Vedirect/DrvRefine.v or DrvProps.v no longer compiles against Gen/DrvImpl.v"))
+        return False
+    return True
